@@ -115,7 +115,7 @@ def run_paths(model, key: str, text) -> List[Tuple[Dict[str, Any], Tuple]]:
             "zoneinfo.ZoneInfo": lambda _it, a, k: Obj("abstract.tz", {"name": a[0]}),
             "datetime.timedelta": timedelta, "vstat_ext.vstat_time_replace": time_replace, "datetime.time": make_time,
         })
-        ev = Obj(f"{STUB_MODULE}.StubFcEvaluator", {"_evaluation_methods": {}, "logger": Opaque("logger", kind="logging.Logger", truthy=True)})
+        ev = Obj(f"{STUB_MODULE}.StubFcEvaluator", {"_evaluation_methods": {}, "stub_methods": {}, "logger": Opaque("logger", kind="logging.Logger", truthy=True)})
         try:
             res = it.call(it.getattr(ev, f"evaluate_{key}", None, None), [text], {}, None, None)
         except PyRaise as err:
